@@ -11,7 +11,7 @@ import (
 // runC03: fault-free baseline against the derivation's expectation, then the
 // enumeration "the k-th action call returns an error" for every listed k.
 func runC03(g Glue, j *Job, res *JobResult) {
-	e := &env{g: g}
+	e := &env{g: g, tokMethods: j.TokMethods}
 	sess := &act.Session{}
 	gsim.SetMain(sess, j.Budget)
 	ctx := ctxOf(3)
@@ -38,8 +38,8 @@ func runC03(g Glue, j *Job, res *JobResult) {
 	// --- fault-free configuration ---
 	p, l := fresh()
 	var usage *Fault
-	if j.CtxSwap > 0 || j.MutateToks {
-		usage = &Fault{CtxSwapAt: j.CtxSwap, MutateToks: j.MutateToks}
+	if j.CtxSwap > 0 || j.MutateToks || j.NestAt > 0 {
+		usage = &Fault{CtxSwapAt: j.CtxSwap, MutateToks: j.MutateToks, NestAt: j.NestAt, NestIn: j.NestIn, NestExpect: j.NestExpect}
 	}
 	base := e.runParse(p, l, j.In, usage, sess, nil)
 	res.Evals++
@@ -80,7 +80,7 @@ func runC03(g Glue, j *Job, res *JobResult) {
 		}
 		for _, kind := range kinds {
 			p, l := fresh()
-			o := e.runParse(p, l, j.In, &Fault{ActionCall: k, Kind: kind, CtxSwapAt: j.CtxSwap, MutateToks: j.MutateToks}, sess, nil)
+			o := e.runParse(p, l, j.In, &Fault{ActionCall: k, Kind: kind, CtxSwapAt: j.CtxSwap, MutateToks: j.MutateToks, NestAt: j.NestAt, NestIn: j.NestIn, NestExpect: j.NestExpect}, sess, nil)
 			res.Evals++
 			res.Stats["fault-"+kind+"-fired"]++
 			dg = digestAdd(dg, o.String())
